@@ -50,6 +50,15 @@ meta={"name":"$DEST","breaks_properties":"$PROPS".split(','),"origin":"independe
  "demo":{"file":"$DEMO","copy_into_package":"$PKG","run":"go test -vet=off -count=1 -run '$RUN' ./$PKG"},
  "confirmed":{"demo_passes_on_unmodified_tree":True,"builds":True,"baseline_tests_pass":True,"demo_fails_with_change":True},
  "needs_to_manifest":"see NOTES.md","checks_run":{"tier":"$TIER","results":res}}
+import os
+if os.path.exists('$D/meta.json'):
+    # a re-verification keeps the annotations made by hand
+    old=json.load(open('$D/meta.json'))
+    for k in ('origin','needs_to_manifest','initially_missed'):
+        if old.get(k) and old[k]!='see NOTES.md':
+            meta[k]=old[k]
+    if old.get('needs_to_manifest','see NOTES.md')!='see NOTES.md':
+        meta['breaks_properties']=old['breaks_properties']+[p for p in meta['breaks_properties'] if p not in old['breaks_properties']]
 json.dump(meta,open('$D/meta.json','w'),indent=1)
 print(json.dumps(res))
 PY
